@@ -39,6 +39,17 @@ package ast
 //@ ghost curSeq : (Array Int (Array Int Str))
 //@ ghost curLen : (Array Int Int)
 //@ ghost curPos : (Array Int Int)
+// curDesc[c]: the cursor runs in descending key order (reverse cursors)
+//@ ghost curDesc : (Array Int Bool)
+// before(desc, a, b): a comes strictly before b in the cursor's direction
+//@ spec before(desc Bool, a Str, b Str) Bool = (ite desc (str_lt b a) (str_lt a b))
+
+// Seek(v): the cursor stands on the first element (in its own direction) that does not come before v
+//@ func (SeekableSetCursor).Seek
+//@   modifies curPos[self]
+//@   ensures[in-range] 0 <= curPos[self] && curPos[self] <= curLen[self]
+//@   ensures[skipped-are-before] forall(i, 0 <= i && i < curPos[self] ==> before(curDesc[self], sel(curSeq[self], i), str(arg0)))
+//@   ensures[lands-at-or-after] curPos[self] < curLen[self] ==> !before(curDesc[self], curSeq[self][curPos[self]], str(arg0))
 
 //@ func (SetCursor).IsValid
 //@   pure
